@@ -7,6 +7,9 @@ case:  [X] <backend> <ttl0,ttl1,…> <event>…        backend ∈ memory redis 
   reg:<n>:<tid>:<map>:<sec>:<src>:<sc>:<tc>:<host>:<port>     strings hex (UTF-8), `-` = empty; ints decimal
   open:<n>:<tid>:<map>:<sec>:-:<sc>:<tc>:<host>:<port>        startSourceBridge on node n
   look:<n>:<tid>  rem:<n>:<tid>  end:<n>:<tid>  adv:<ms>  advw:<ms>  advs:<ms>  rega:<n>:<nid>:<addr>  geta:<n>:<nid>
+  poll:<n>:<tid>:<k>  the polling lookup of node n runs its first k polls (obs found:… | pending | estore)
+  pend:<n>:<tid>      it runs one more poll, then its context ends (obs found:… | ptimeout | estore)
+  restart:<n>         node n loses all in-process state (bridges, node-local cache)
   fwd:<n>:<tid>     a target connection for <tid> arrives on node n: lookup, then CreateDedicatedConnection (obs fwd:<src>:<addr> | enoaddr)
 obs:   one token per event:
   ok eparam nf exp eint estore edata exists skip addr:<hex> found:<tid>:<map>:<sec>:<src>:<sc>:<tc>:<host>:<port>:<ttl ms>
@@ -50,6 +53,9 @@ def parseEv (tok : String) : Option Ev :=
   | ["rega", n, nid, a] => do pure (.regAddr (← n.toNat?) (← strOfHex nid) (← strOfHex a))
   | ["geta", n, nid] => do pure (.getAddr (← n.toNat?) (← strOfHex nid))
   | ["fwd", n, tid] => do pure (.fwd (← n.toNat?) (← strOfHex tid))
+  | ["poll", n, tid, k] => do pure (.pollStart (← n.toNat?) (← strOfHex tid) (← k.toNat?))
+  | ["pend", n, tid] => do pure (.pollEnd (← n.toNat?) (← strOfHex tid))
+  | ["restart", n] => do pure (.restart (← n.toNat?))
   | _ => none
 
 def parseCase : List String → Option (Cfg × List Ev)
@@ -72,6 +78,10 @@ def resStr : Res → String
   | .exists_ => "exists"
   | .skip => "skip"
   | .errNoAddr => "enoaddr"
+  | .pending => "pending"
+  | .localAttached => "local"
+  | .localWait => "localwait"
+  | .timeout => "ptimeout"
   | .forwarded src a => "fwd:" ++ hexOfStr src ++ ":" ++ hexOfStr a
   | .addr s => "addr:" ++ hexOfStr s
   | .found r =>
@@ -92,6 +102,10 @@ def parseRes (tok : String) : Option Res :=
   | ["skip"] => some .skip
   | ["addr", a] => do pure (.addr (← strOfHex a))
   | ["enoaddr"] => some .errNoAddr
+  | ["pending"] => some .pending
+  | ["local"] => some .localAttached
+  | ["localwait"] => some .localWait
+  | ["ptimeout"] => some .timeout
   | ["fwd", src, a] => do pure (.forwarded (← strOfHex src) (← strOfHex a))
   | ["found", tid, mp, sec, src, sc, tc, host, port, ttl] => do
     let r ← parseRec [tid, mp, sec, src, sc, tc, host, port]
